@@ -53,55 +53,63 @@ def pOperator (inp : Bytes) : Option (Bytes × Bytes) :=
 /-- `operand` before the trailing `content_space`: the `alt` of `operand` — like
 `_direct_objects` but WITHOUT the `reference` alternative; arrays and dictionaries recurse
 through `_direct_object` (which does know references). -/
-def operandObj (inp : Bytes) : Option (Obj × Bytes) :=
+def operandObj (inp : Bytes) : PRes Obj :=
   match tag NULL_KW inp with
-  | some r => some (.null, r)
+  | some r => .ok .null r
   | none =>
   match tag TRUE_KW inp with
-  | some r => some (.bool true, r)
+  | some r => .ok (.bool true) r
   | none =>
   match tag FALSE_KW inp with
-  | some r => some (.bool false, r)
+  | some r => .ok (.bool false) r
   | none =>
   match pReal inp with
-  | some (t, r) => some (.real t, r)
+  | some (t, r) => .ok (.real t) r
   | none =>
   match pInteger inp with
-  | some (i, r) => some (.int i, r)
+  | some (i, r) => .ok (.int i) r
   | none =>
   match pName inp with
-  | some (n, r) => some (.name n, r)
+  | some (n, r) => .ok (.name n) r
   | none =>
   match pLiteral inp with
-  | some (s, r) => some (.str s .lit, r)
+  | some (s, r) => .ok (.str s .lit) r
   | none =>
   match pHexString inp with
-  | some (s, r) => some (.str s .hex, r)
+  | some (s, r) => .ok (.str s .hex) r
   | none =>
   let fuel := inp.length + 1
   match inp with
   | 91 :: r =>
-    let (items, r1) := manyObjects fuel fuel (space r)
-    (match r1 with
-     | 93 :: r2 => some (.arr items, r2)
-     | _ => none)
+    (match manyObjects fuel 1 fuel (space r) with
+     | none => .failure
+     | some (items, r1) =>
+       (match r1 with
+        | 93 :: r2 => .ok (.arr items) r2
+        | _ => .error))
   | 60 :: 60 :: r =>
-    let (es, r1) := dictEntries fuel fuel (space r) []
-    (match r1 with
-     | 62 :: 62 :: r2 => some (.dict es, r2)
-     | _ => none)
-  | _ => none
+    (match dictEntries fuel 1 fuel (space r) [] with
+     | none => .failure
+     | some (es, r1) =>
+       (match r1 with
+        | 62 :: 62 :: r2 => .ok (.dict es) r2
+        | _ => .error))
+  | _ => .error
 
-def pOperand (inp : Bytes) : Option (Obj × Bytes) :=
-  (operandObj inp).map fun (o, r) => (o, contentSpace r)
+def pOperand (inp : Bytes) : PRes Obj :=
+  match operandObj inp with
+  | .ok o r => .ok o (contentSpace r)
+  | .error => .error
+  | .failure => .failure
 
-/-- `many0(operand)` -/
-def manyOperands : Nat → Bytes → List Obj × Bytes
-  | 0, inp => ([], inp)
+/-- `many0(operand)`; `none` = failure -/
+def manyOperands : Nat → Bytes → Option (List Obj × Bytes)
+  | 0, inp => some ([], inp)
   | n + 1, inp =>
     match pOperand inp with
-    | some (o, r) => let (os, r') := manyOperands n r; (o :: os, r')
-    | none => ([], inp)
+    | .ok o r => (manyOperands n r).map fun (os, r') => (o :: os, r')
+    | .error => some ([], inp)
+    | .failure => none
 
 /-- `many0(comment)` -/
 def manyComments : Nat → Bytes → Bytes
@@ -157,7 +165,9 @@ where
 /-- `inline_image` after `BI content_space` (inside `cut`: every error is a failure) -/
 def inlineImageImpl (inp : Bytes) : PR Operation :=
   let fuel := inp.length + 1
-  let (d, r1) := dictEntries fuel fuel inp []
+  match dictEntries fuel 0 fuel inp [] with
+  | none => .failure
+  | some (d, r1) =>
   match tag [73, 68] r1 with                         -- "ID"
   | none => .failure
   | some r2 =>
@@ -175,10 +185,12 @@ def pOperation (inp : Bytes) : PR Operation :=
   match tag [66, 73] inp1 with                       -- "BI"
   | some r => inlineImageImpl (contentSpace r)
   | none =>
-    let (operands, r1) := manyOperands (inp1.length + 1) inp1
-    match pOperator r1 with
-    | some (op, r2) => .ok { operator := op, operands := operands } (contentSpace r2)
-    | none => .error
+    match manyOperands (inp1.length + 1) inp1 with
+    | none => .failure
+    | some (operands, r1) =>
+      match pOperator r1 with
+      | some (op, r2) => .ok { operator := op, operands := operands } (contentSpace r2)
+      | none => .error
 
 /-- `many0(operation)` -/
 def manyOperations : Nat → Bytes → Outcome (List Operation)
